@@ -215,6 +215,7 @@ def render_out(events):
         if ev["t"] == "int": s = str(limbs_to_int(ev["i"]))
         elif ev["t"] == "bool": s = "true" if ev["i"][3] == 1 else "false"
         elif ev["t"] == "str": s = ev["s"]
+        elif ev["t"] == "void": s = "void"          # reachable only under a deviation switch (the evaluator's and the VM's text for the void value)
         else: s = "<%s>" % ev["t"]          # the text of void / composite values is not specified: runs printing them are never compared (sem_common.prescribe)
         out.append(s + ("\n" if ev["nl"] else ""))
     return "".join(out)
